@@ -1,5 +1,5 @@
 import base64
-from http.cookies import SimpleCookie
+from http.cookies import SimpleCookie, CookieError
 from urllib.parse import (
     quote as urlquote,
     urljoin,
@@ -53,7 +53,11 @@ class PropsMixin:
     def cookies(self):
         """ Cookies parsed into a :class:`CookieDict`. Signed cookies are NOT
             decoded. Use :meth:`get_cookie` if you expect signed cookies. """
-        cookies = SimpleCookie(self._env_get('HTTP_COOKIE', '')).values()
+        try:
+            cookies = SimpleCookie(self._env_get('HTTP_COOKIE', '')).values()
+        except CookieError:
+            # a malformed Cookie header carries no cookies
+            cookies = ()
         return self._cookie_factory((c.key, c.value) for c in cookies)
 
     def get_cookie(self, key, default=None, secret=None):
